@@ -462,6 +462,12 @@ pub fn oinit_q(id: i64, b: i64) -> Opt {
     }
 }
 
+/// a callback of a thread-spawning macro nested inside a callback: logs the thread it runs on
+/// (`path`: branch indices of the enclosing spawned branches, outermost first)
+pub fn nest(path: &[i64]) {
+    let _q = Quiet::new();
+    log(json!({"ev":"nest","path":path}));
+}
 /// operand written as a call expression: logs its evaluation
 pub fn opnd(id: i64) {
     let _q = Quiet::new();
